@@ -6,6 +6,7 @@ import (
 	"encoding/binary"
 	"fmt"
 	"net"
+	"regexp"
 	"strconv"
 	"strings"
 
@@ -32,7 +33,7 @@ type node struct {
 var printableProtos = []uint64{2, 6, 17, 27, 47, 50, 51, 59, 89, 97, 112, 132, 136, 137}
 
 func genTree(r *vgen.Rand, depth int) *node {
-	if depth <= 1 || r.Chance(1, 4) {
+	if depth <= 1 {
 		return genLeaf(r)
 	}
 	switch r.Intn(5) {
@@ -47,12 +48,17 @@ func genTree(r *vgen.Rand, depth int) *node {
 
 func genKids(r *vgen.Rand, depth int) []*node {
 	n := r.Range(1, 4)
-	if r.Chance(1, 12) {
+	if r.Chance(1, 40) {
 		n = 0
 	}
 	ks := make([]*node, n)
 	for i := range ks {
-		ks[i] = genTree(r, depth-1)
+		// one child of full depth, the others of any smaller depth
+		d := depth - 1
+		if i > 0 {
+			d = r.Range(1, depth-1)
+		}
+		ks[i] = genTree(r, d)
 	}
 	return ks
 }
@@ -80,7 +86,7 @@ func genLeaf(r *vgen.Rand) *node {
 	case 5:
 		return &node{kind: "dscp", v: uint64(vgen.Pick(r, 0, 1, 9, 10, 16, 0x2e, 63, 64, 255, r.Intn(64), r.Intn(64), r.Intn(256)))}
 	case 6:
-		if r.Chance(1, 6) {
+		if r.Chance(1, 12) {
 			return &node{kind: "proto", v: uint64(r.Intn(256))}
 		}
 		return &node{kind: "proto", v: vgen.Pick(r, printableProtos...)}
@@ -426,11 +432,19 @@ func build(s string, ps []*probe) pobs {
 	return pobs{ok: true, text: c.String(), ev: evalAll(c, ps), cond: c}
 }
 
-func (o pobs) gallina() string {
+func (o pobs) gallina() string { return o.gallinaWith("\x00") }
+
+// gallinaWith prints the observation; a text equal to the one bound to the
+// let-variable s of the enclosing term is printed as that variable.
+func (o pobs) gallinaWith(s string) string {
 	if !o.ok {
 		return "None"
 	}
-	return vgen.Opt(vgen.Pair(vgen.Str(o.text), boolList(o.ev)), true)
+	txt := vgen.Str(o.text)
+	if o.text == s {
+		txt = "s"
+	}
+	return vgen.Opt(vgen.Pair(txt, boolList(o.ev)), true)
 }
 
 const alphabet = "()=,-./x0123456789abcdefABCDEFlnotyrusALNOTY \t#;_%"
@@ -494,6 +508,111 @@ func mutate(r *vgen.Rand, s string) string {
 	return string(b)
 }
 
+var (
+	reKw   = regexp.MustCompile(`\b(all|any|not|src|dst|tos|dscp|protocol|srcport|dstport|BOOL)\b`)
+	reHex  = regexp.MustCompile(`0x[0-9a-f]+`)
+	reProt = regexp.MustCompile(`protocol=[A-Za-z]+`)
+	rePort = regexp.MustCompile(`port=(\d+)-(\d+)`)
+	reNet  = regexp.MustCompile(`(\d+)\.(\d+)\.(\d+)\.(\d+)/(\d+)`)
+	reNum  = regexp.MustCompile(`\d+`)
+	reSep  = regexp.MustCompile(`[(),]`)
+)
+
+// benign rewrites a printed text into another spelling of the same expression
+// (mostly; a few of the rewrites are deliberately on the edge).
+func benign(r *vgen.Rand, s string) string {
+	for k := r.Range(1, 3); k > 0; k-- {
+		switch r.Intn(6) {
+		case 0: // keywords in the other case
+			s = reKw.ReplaceAllStringFunc(s, func(w string) string {
+				if r.Chance(1, 3) {
+					return w
+				}
+				if w == "BOOL" {
+					return "bool"
+				}
+				return strings.ToUpper(w)
+			})
+		case 1: // hex digits upper case / leading zeros
+			s = reHex.ReplaceAllStringFunc(s, func(w string) string {
+				d := w[2:]
+				if r.Bool() {
+					d = strings.ToUpper(d)
+				}
+				if r.Chance(1, 3) {
+					d = strings.Repeat("0", r.Range(1, 3)) + d
+				}
+				return "0x" + d
+			})
+		case 2: // protocol names in any case
+			s = reProt.ReplaceAllStringFunc(s, func(w string) string {
+				b := []byte(w)
+				for i := len("protocol="); i < len(b); i++ {
+					if r.Bool() {
+						b[i] ^= 0x20
+					}
+				}
+				return string(b)
+			})
+		case 3: // single port form
+			s = rePort.ReplaceAllStringFunc(s, func(w string) string {
+				m := rePort.FindStringSubmatch(w)
+				if m[1] == m[2] && r.Chance(3, 4) {
+					return "port=" + m[1]
+				}
+				return w
+			})
+		case 4: // whitespace around separators
+			s = reSep.ReplaceAllStringFunc(s, func(w string) string {
+				if r.Chance(1, 2) {
+					return w
+				}
+				return vgen.Pick(r, " ", "", "\t", "\n") + w + vgen.Pick(r, " ", "", "  ", "\r\n")
+			})
+		case 5: // host bits into a net
+			s = reNet.ReplaceAllStringFunc(s, func(w string) string {
+				m := reNet.FindStringSubmatch(w)
+				return fmt.Sprintf("%s.%s.%s.%d/%s", m[1], m[2], m[3], r.Intn(256), m[5])
+			})
+		}
+	}
+	return s
+}
+
+// hintsFromText: numbers in the text become probe boundaries.
+func hintsFromText(s string) *hints {
+	h := &hints{}
+	for _, m := range reNet.FindAllStringSubmatch(s, -1) {
+		var a uint32
+		for i := 1; i <= 4; i++ {
+			v, _ := strconv.ParseUint(m[i], 10, 32)
+			a = a<<8 | uint32(v&0xff)
+		}
+		l, _ := strconv.ParseUint(m[5], 10, 8)
+		var mk uint32
+		if l > 0 && l <= 32 {
+			mk = ^uint32(0) << (32 - l)
+		}
+		h.addrs = append(h.addrs, a&mk, a&mk|^mk, (a&mk)-1, (a&mk|^mk)+1)
+	}
+	for _, w := range reHex.FindAllString(s, -1) {
+		v, _ := strconv.ParseUint(w[2:], 16, 64)
+		h.tos = append(h.tos, uint8(v), uint8(v<<2), uint8(v<<2)|1)
+	}
+	for _, w := range reNum.FindAllString(s, -1) {
+		v, _ := strconv.ParseUint(w, 10, 64)
+		h.ports = append(h.ports, uint16(v), uint16(v)+1, uint16(v)-1)
+	}
+	for _, w := range reProt.FindAllString(s, -1) {
+		for n, m := range layers.IPProtocolMetadata {
+			if strings.EqualFold(m.Name, w[len("protocol="):]) {
+				h.protos = append(h.protos, uint8(n))
+			}
+		}
+	}
+	return h
+}
+
 func isLetter(c byte) bool { return c >= 'a' && c <= 'z' || c >= 'A' && c <= 'Z' }
 
 var corpus = []string{
@@ -525,6 +644,10 @@ func main() {
 		"every run; texts: fixed corpus + printed trees with 1-3 edits (delete/insert/replace char, grammar fragments, truncation, " +
 		"case flips, whitespace) -> BuildClassTree accept/reject, String(), Eval, and print->parse again; " +
 		"non-trivial = tree with a packet-dependent leaf, or text accepted by the implementation"
+	run.ShardSize = 220
+	if run.Tier == "thorough" {
+		run.ShardSize = 1000
+	}
 	rng := vgen.NewRand(run.Seed)
 
 	doTree := func(kind string, t *node, r *vgen.Rand, nprobe int) {
@@ -552,7 +675,8 @@ func main() {
 		if re.panic {
 			run.Tally("panic-on-printed-text")
 		}
-		term := vgen.App("PktCls.CTree", t.gallina(), vgen.ListOf(ps, (*probe).gallina), vgen.Str(s), boolList(ev), re.gallina())
+		term := "(let s := " + vgen.Str(s) + " in " +
+			vgen.App("PktCls.CTree", t.gallina(), vgen.ListOf(ps, (*probe).gallina), "s", boolList(ev), re.gallinaWith(s)) + ")"
 		run.Add(kind, term, term, dep, map[string]any{"text": s, "evals": ev, "reparse_ok": re.ok, "reparse": re.text})
 	}
 
@@ -563,28 +687,31 @@ func main() {
 			run.Skip()
 			continue
 		}
-		doTree("proto-name", &node{kind: "proto", v: uint64(v)}, r, 2)
+		doTree("proto-name", &node{kind: "proto", v: uint64(v)}, r, 1)
 	}
 	// 2. random trees
-	nt := run.Count(900, 60000)
+	nt := run.Count(400, 20000)
 	var texts []string
 	for i := 0; i < nt; i++ {
 		r := rng.Fork(uint64(1000 + i))
-		t := genTree(r, r.Range(1, 4))
+		t := genTree(r, vgen.Pick(r, 1, 2, 2, 3, 3, 3, 4, 4))
 		if len(texts) < 4000 {
-			texts = append(texts, t.cond().String())
+			if s := t.cond().String(); len(s) <= 80 && (i%8 == 0 || pktcls.ValidateTrafficClass(s) == nil) {
+				texts = append(texts, s)
+			}
 		}
 		if !run.Want() {
 			run.Skip()
 			continue
 		}
-		doTree("tree", t, r, 8)
+		doTree("tree", t, r, 6)
 	}
 	// 3. texts
 	doText := func(kind, s string, r *vgen.Rand) {
-		ps := make([]*probe, 4)
+		ps := make([]*probe, 3)
+		h := hintsFromText(s)
 		for i := range ps {
-			ps[i] = genProbe(r.Fork(uint64(i)), nil)
+			ps[i] = genProbe(r.Fork(uint64(i)), h)
 		}
 		o := build(s, ps)
 		var re pobs
@@ -601,6 +728,10 @@ func main() {
 			run.Tally("text:rejected")
 		}
 		term := vgen.App("PktCls.CText", vgen.Str(s), vgen.ListOf(ps, (*probe).gallina), o.gallina(), re.gallina())
+		if o.ok {
+			term = "(let s := " + vgen.Str(o.text) + " in " +
+				vgen.App("PktCls.CText", vgen.Str(s), vgen.ListOf(ps, (*probe).gallina), o.gallinaWith(o.text), re.gallinaWith(o.text)) + ")"
+		}
 		run.Add(kind, term, s, o.ok, map[string]any{"text": s, "accepted": o.ok, "panic": o.panic, "printed": o.text,
 			"reparse_ok": re.ok, "reparse": re.text})
 	}
@@ -612,22 +743,31 @@ func main() {
 		}
 		doText("corpus", s, r)
 	}
-	nm := run.Count(1500, 100000)
+	nm := run.Count(560, 30000)
 	for i := 0; i < nm; i++ {
 		r := rng.Fork(uint64(6000000 + i))
 		base := texts[r.Intn(len(texts))]
-		if len(base) > 120 {
+		if r.Chance(1, 10) {
 			base = corpus[r.Intn(len(corpus))]
 		}
-		s := mutate(r, base)
-		if r.Chance(1, 10) {
+		var s string
+		kind := "mutated"
+		switch {
+		case r.Chance(2, 5):
+			s, kind = benign(r, base), "respelled"
+		case r.Chance(1, 3):
+			s = mutate(r, benign(r, base))
+		default:
+			s = mutate(r, base)
+		}
+		if r.Chance(1, 20) {
 			s = strings.ToUpper(s)
 		}
 		if !run.Want() {
 			run.Skip()
 			continue
 		}
-		doText("mutated", s, r)
+		doText(kind, s, r)
 	}
 	run.Finish()
 }
